@@ -60,6 +60,15 @@ impl Value {
         }
     }
 
+    /// Returns the value as it will be stored in a table cell: the file
+    /// format has a single representation for null and the empty string.
+    pub(crate) fn into_stored(self) -> Value {
+        match self {
+            Value::Str(ref string) if string.is_empty() => Value::Null,
+            value => value,
+        }
+    }
+
     /// Coerces the `Value` to a boolean.  Returns false for null, zero, and
     /// empty string; returns true for all other values.
     pub(crate) fn to_bool(&self) -> bool {
@@ -165,6 +174,10 @@ impl ValueRef {
         match value {
             Value::Null => ValueRef::Null,
             Value::Int(number) => ValueRef::Int(number),
+            // The file format cannot distinguish an empty string from a
+            // null cell: a live pool entry of length zero would be parsed as
+            // the escape for a long string.  So store it as a null reference.
+            Value::Str(string) if string.is_empty() => ValueRef::Null,
             Value::Str(string) => ValueRef::Str(string_pool.incref(string)),
         }
     }
